@@ -1,9 +1,12 @@
 (* C13 - model of lark/parsers/lalr_parser_state.py (ParserState.feed_token / copy),
    lark/parsers/lalr_interactive_parser.py (InteractiveParser / ImmutableInteractiveParser)
    and of the LALR callback chain of lark/parse_tree_builder.py
-   (ExpandSingleChild . ChildFilterLALR[_NoPlaceholders] . Tree), over an abstract parse
-   table.  Model only, no proofs.  Terminal number 0 is $END. *)
-From Coq Require Import List Arith Bool.
+   (PropagatePositions . ChildFilterLALR[_NoPlaceholders] . ExpandSingleChild . Tree), over an
+   abstract parse table, with Meta objects and lexer threads on the heap.  PropagatePositions is
+   Pos.MetaSpan.propagate (the positions agent's model) applied to the Meta cell of the result.
+   Model only, no proofs.  Terminal number 0 is $END. *)
+From Coq Require Import List Arith Bool ZArith.
+From LV Require Pos.MetaSpan.
 From LV Require Import Inter.Heap.
 Import ListNotations.
 
@@ -54,9 +57,18 @@ Record cbshape := {
 (* callbacks = {}:  value = s  (the bare list; represented as a node with data 0) *)
 Definition cb_none : cbshape := {| cb_data := 0; cb_expand1 := false; cb_filter := None |}.
 
+(* the callbacks of one parser configuration *)
+Record cbenv := {
+  ce_cb : nat -> cbshape;             (* per rule *)
+  ce_pp : bool;                       (* propagate_positions: PropagatePositions wraps every rule callback *)
+  ce_tp : nat -> trip * trip }.       (* (start_pos, line, column), (end_pos, end_line, end_column) of token id *)
+
+Definition env_none : cbenv :=
+  {| ce_cb := fun _ => cb_none; ce_pp := false; ce_tp := fun _ => ((0, 0, 0), (0, 0, 0))%Z |}.
+
 (* --- on immutable trees (the specification of the callback chain) *)
 Definition pchildren (t : ptree) : list ptree :=
-  match t with PNode _ ch => ch | _ => [] end.
+  match t with PNode _ _ ch => ch | _ => [] end.
 
 Fixpoint pfilter (acc args : list ptree) (ds : list dir) : list ptree :=
   match args, ds with
@@ -71,15 +83,35 @@ Fixpoint pfilter (acc args : list ptree) (ds : list dir) : list ptree :=
 
 Definition pbuild (sh : cbshape) (ch : list ptree) : ptree :=
   match ch with
-  | [x] => if cb_expand1 sh then x else PNode (cb_data sh) ch
-  | _ => PNode (cb_data sh) ch
+  | [x] => if cb_expand1 sh then x else PNode (cb_data sh) empty_meta ch
+  | _ => PNode (cb_data sh) empty_meta ch
   end.
 
-Definition pcb (sh : cbshape) (args : list ptree) : ptree :=
+Definition pcb_inner (sh : cbshape) (args : list ptree) : ptree :=
   match cb_filter sh with
   | None => pbuild sh args
   | Some (ds, app) => pbuild sh (pfilter [] args ds ++ repeat PNone app)
   end.
+
+(* a child as _pp_get_meta sees it *)
+Definition pshape (tp : nat -> trip * trip) (t : ptree) : MetaSpan.shaped :=
+  match t with
+  | PTok _ id => MetaSpan.SHTok (fst (tp id)) (snd (tp id))
+  | PNode _ mt _ => MetaSpan.SHTree mt
+  | PNone => MetaSpan.SHNone
+  end.
+
+(* PropagatePositions.__call__ : res = node_builder(children); if res is a Tree its meta becomes
+   propagate(res.meta, children) - children are the *unfiltered* values of the reduction *)
+Definition ppp (tp : nat -> trip * trip) (res : ptree) (args : list ptree) : ptree :=
+  match res with
+  | PNode d mt ch => PNode d (MetaSpan.propagate mt (map (pshape tp) args)) ch
+  | r => r
+  end.
+
+Definition pcb (E : cbenv) (r : nat) (args : list ptree) : ptree :=
+  let res := pcb_inner (ce_cb E r) args in
+  if ce_pp E then ppp (ce_tp E) res args else res.
 
 (* --- on the heap (what the code does).  cur = the list object bound to `filtered` *)
 Fixpoint hfilter (H : heap) (cur : loc) (args : list value) (ds : list dir) : heap * loc :=
@@ -93,7 +125,7 @@ Fixpoint hfilter (H : heap) (cur : loc) (args : list value) (ds : list dir) : he
       | DExpand nn =>
           let H1 := hext H cur (repeat VNone nn) in
           match c with
-          | VTree _ lc =>
+          | VTree _ lc _ =>
               match hget H1 cur with
               | [] => hfilter H1 lc args' ds'                         (* filtered = children[i].children *)
               | _ :: _ => hfilter (hext H1 cur (hget H1 lc)) cur args' ds'  (* filtered += children[i].children *)
@@ -104,24 +136,44 @@ Fixpoint hfilter (H : heap) (cur : loc) (args : list value) (ds : list dir) : he
   | _, _ => (H, cur)
   end.
 
-(* ExpandSingleChild . Tree   applied to the list object at l *)
-Definition hbuild (sh : cbshape) (H : heap) (l : loc) : value :=
+(* ExpandSingleChild . Tree   applied to the list object at l; a new Tree gets a new (empty) Meta *)
+Definition hbuild (sh : cbshape) (H : heap) (l : loc) : heap * value :=
+  let fresh := (H ++ [CMeta empty_meta], VTree (cb_data sh) l (length H)) in
   match hget H l with
-  | [x] => if cb_expand1 sh then x else VTree (cb_data sh) l
-  | _ => VTree (cb_data sh) l
+  | [x] => if cb_expand1 sh then (H, x) else fresh
+  | _ => fresh
   end.
 
-Definition hcb (sh : cbshape) (H : heap) (args : list value) : heap * value :=
+Definition hcb_inner (sh : cbshape) (H : heap) (args : list value) : heap * value :=
   match cb_filter sh with
   | None =>
       (* s = value_stack[-size:] is a new list; Tree(name, s) keeps it *)
-      let (H1, l) := halloc H args in (H1, hbuild sh H1 l)
+      let (H1, l) := halloc H (CList args) in hbuild sh H1 l
   | Some (ds, app) =>
-      let (H0, l0) := halloc H [] in              (* filtered = [] *)
+      let (H0, l0) := halloc H (CList []) in      (* filtered = [] *)
       let (H1, l) := hfilter H0 l0 args ds in
       let H2 := hext H1 l (repeat VNone app) in   (* filtered += [None]*append_none *)
-      (H2, hbuild sh H2 l)
+      hbuild sh H2 l
   end.
+
+Definition hshape (tp : nat -> trip * trip) (H : heap) (v : value) : MetaSpan.shaped :=
+  match v with
+  | VTok _ id => MetaSpan.SHTok (fst (tp id)) (snd (tp id))
+  | VTree _ _ m => MetaSpan.SHTree (mget H m)
+  | VNone => MetaSpan.SHNone
+  end.
+
+(* PropagatePositions.__call__ after node_builder returned res: first_meta / last_meta are looked up
+   in the children as they are now (res may be one of them), then res.meta is written in place *)
+Definition hpp (tp : nat -> trip * trip) (H : heap) (res : value) (args : list value) : heap :=
+  match res with
+  | VTree _ _ m => mset H m (MetaSpan.propagate (mget H m) (map (hshape tp H) args))
+  | _ => H
+  end.
+
+Definition hcb (E : cbenv) (r : nat) (H : heap) (args : list value) : heap * value :=
+  let (H1, res) := hcb_inner (ce_cb E r) H args in
+  (if ce_pp E then hpp (ce_tp E) H1 res args else H1, res).
 
 (* ------------------------------------------------------------------ feed_token *)
 Inductive kind :=
@@ -134,7 +186,7 @@ Inductive kind :=
 Definition kind_ok (k : kind) : bool := match k with KShift | KResult => true | _ => false end.
 
 (* state stack: top first.  value stack: Python order (top last). *)
-Fixpoint hfeed (k : nat) (T : table) (cb : nat -> cbshape) (H : heap) (ss : list nat)
+Fixpoint hfeed (k : nat) (T : table) (E : cbenv) (H : heap) (ss : list nat)
          (vs : list value) (ty id : nat) (is_end : bool) : heap * list nat * list value * kind :=
   match k with
   | 0 => (H, ss, vs, KFuel)
@@ -149,7 +201,7 @@ Fixpoint hfeed (k : nat) (T : table) (cb : nat -> cbshape) (H : heap) (ss : list
               else (H, s' :: ss, vs ++ [VTok ty id], KShift)
           | Some (Reduce r) =>
               let n := rarity T r in
-              let '(H1, v) := hcb (cb r) H (lastn n vs) in
+              let '(H1, v) := hcb E r H (lastn n vs) in
               let ss0 := skipn n ss in
               let vs0 := droplast n vs in
               match ss0 with
@@ -160,7 +212,7 @@ Fixpoint hfeed (k : nat) (T : table) (cb : nat -> cbshape) (H : heap) (ss : list
                   | Some s1 =>
                       if is_end && (s1 =? end_state T)
                       then (H1, s1 :: ss0, vs0 ++ [v], KResult)
-                      else hfeed k' T cb H1 (s1 :: ss0) (vs0 ++ [v]) ty id is_end
+                      else hfeed k' T E H1 (s1 :: ss0) (vs0 ++ [v]) ty id is_end
                   end
               end
           end
@@ -168,7 +220,7 @@ Fixpoint hfeed (k : nat) (T : table) (cb : nat -> cbshape) (H : heap) (ss : list
   end.
 
 (* the same function on immutable trees *)
-Fixpoint pfeed (k : nat) (T : table) (cb : nat -> cbshape) (ss : list nat)
+Fixpoint pfeed (k : nat) (T : table) (E : cbenv) (ss : list nat)
          (ts : list ptree) (ty id : nat) (is_end : bool) : list nat * list ptree * kind :=
   match k with
   | 0 => (ss, ts, KFuel)
@@ -183,7 +235,7 @@ Fixpoint pfeed (k : nat) (T : table) (cb : nat -> cbshape) (ss : list nat)
               else (s' :: ss, ts ++ [PTok ty id], KShift)
           | Some (Reduce r) =>
               let n := rarity T r in
-              let v := pcb (cb r) (lastn n ts) in
+              let v := pcb E r (lastn n ts) in
               let ss0 := skipn n ss in
               let ts0 := droplast n ts in
               match ss0 with
@@ -194,7 +246,7 @@ Fixpoint pfeed (k : nat) (T : table) (cb : nat -> cbshape) (ss : list nat)
                   | Some s1 =>
                       if is_end && (s1 =? end_state T)
                       then (s1 :: ss0, ts0 ++ [v], KResult)
-                      else pfeed k' T cb (s1 :: ss0) (ts0 ++ [v]) ty id is_end
+                      else pfeed k' T E (s1 :: ss0) (ts0 ++ [v]) ty id is_end
                   end
               end
           end
@@ -229,63 +281,86 @@ Fixpoint cfeed (k : nat) (T : table) (ss : list nat) (ty : nat) (is_end : bool) 
   end.
 
 (* InteractiveParser.feed_token(token) = parser_state.feed_token(token, token.type == '$END') *)
-Definition hifeed k T cb H ss vs (ty id : nat) := hfeed k T cb H ss vs ty id (ty =? END).
-Definition pifeed k T cb ss ts (ty id : nat) := pfeed k T cb ss ts ty id (ty =? END).
+Definition hifeed k T E H ss vs (ty id : nat) := hfeed k T E H ss vs ty id (ty =? END).
+Definition pifeed k T E ss ts (ty id : nat) := pfeed k T E ss ts ty id (ty =? END).
 
 (* _Parser.parse_from_state: feed every token of the lexer with is_end=False, then $END
    with is_end=True; the first exception ends the loop (the state keeps what was done). *)
-Fixpoint hparse_from (k : nat) (T : table) (cb : nat -> cbshape) (H : heap) (ss : list nat)
+Fixpoint hparse_from (k : nat) (T : table) (E : cbenv) (H : heap) (ss : list nat)
          (vs : list value) (toks : list (nat * nat)) : heap * list nat * list value * kind :=
   match toks with
-  | [] => hfeed k T cb H ss vs END 0 true
+  | [] => hfeed k T E H ss vs END 0 true
   | (ty, id) :: rest =>
-      let '(H1, ss1, vs1, kd) := hfeed k T cb H ss vs ty id false in
+      let '(H1, ss1, vs1, kd) := hfeed k T E H ss vs ty id false in
       match kd with
-      | KShift => hparse_from k T cb H1 ss1 vs1 rest
+      | KShift => hparse_from k T E H1 ss1 vs1 rest
       | _ => (H1, ss1, vs1, kd)
       end
   end.
 
-Fixpoint pparse_from (k : nat) (T : table) (cb : nat -> cbshape) (ss : list nat)
+Fixpoint pparse_from (k : nat) (T : table) (E : cbenv) (ss : list nat)
          (ts : list ptree) (toks : list (nat * nat)) : list nat * list ptree * kind :=
   match toks with
-  | [] => pfeed k T cb ss ts END 0 true
+  | [] => pfeed k T E ss ts END 0 true
   | (ty, id) :: rest =>
-      let '(ss1, ts1, kd) := pfeed k T cb ss ts ty id false in
+      let '(ss1, ts1, kd) := pfeed k T E ss ts ty id false in
       match kd with
-      | KShift => pparse_from k T cb ss1 ts1 rest
+      | KShift => pparse_from k T E ss1 ts1 rest
       | _ => (ss1, ts1, kd)
       end
   end.
 
+(* how many tokens parse_from_state takes from the lexer: all, or up to and including the first
+   one whose feed raises (control only) *)
+Fixpoint cparse_cnt (k : nat) (T : table) (ss : list nat) (toks : list (nat * nat)) : nat :=
+  match toks with
+  | [] => 0
+  | (ty, _) :: rest =>
+      let '(ss1, kd) := cfeed k T ss ty false in
+      match kd with
+      | KShift => S (cparse_cnt k T ss1 rest)
+      | _ => 1
+      end
+  end.
+
 (* Lark.parse on a token sequence, as a function to immutable trees *)
-Definition pparse k T cb toks := pparse_from k T cb [start_state T] [] toks.
+Definition pparse k T E toks := pparse_from k T E [start_state T] [] toks.
 
 (* feeding tokens one by one through an InteractiveParser (stop at the first exception),
    then feed_eof() *)
-Fixpoint hfeed_all (k : nat) (T : table) (cb : nat -> cbshape) (H : heap) (ss : list nat)
+Fixpoint hfeed_all (k : nat) (T : table) (E : cbenv) (H : heap) (ss : list nat)
          (vs : list value) (toks : list (nat * nat)) : heap * list nat * list value * kind :=
   match toks with
-  | [] => hifeed k T cb H ss vs END 0
+  | [] => hifeed k T E H ss vs END 0
   | (ty, id) :: rest =>
-      let '(H1, ss1, vs1, kd) := hifeed k T cb H ss vs ty id in
+      let '(H1, ss1, vs1, kd) := hifeed k T E H ss vs ty id in
       match kd with
-      | KShift => hfeed_all k T cb H1 ss1 vs1 rest
+      | KShift => hfeed_all k T E H1 ss1 vs1 rest
       | _ => (H1, ss1, vs1, kd)
       end
   end.
 
 (* ------------------------------------------------------------------ parsers and forks *)
-Record parser := { p_imm : bool; p_ss : list nat; p_vs : list value }.
+(* an InteractiveParser: p_lt = self.lexer_thread, p_sl = self.parser_state.lexer (the thread
+   resume_parse() reads from); both are LexerThread objects on the heap *)
+Record parser := { p_imm : bool; p_ss : list nat; p_vs : list value; p_lt : loc; p_sl : loc }.
 Record world := { w_heap : heap; w_ps : list parser }.
+
+(* the three places where the copy code matters (regenerated / pinned: Gen/InterHoles.v) *)
+Record impl := {
+  im_deep : bool;    (* default of InteractiveParser.copy(deepcopy_values=...), through which copy(p),
+                        as_immutable, as_mutable and ImmutableInteractiveParser.feed_token go *)
+  im_meta : bool;    (* Tree.__deepcopy__ deep-copies the Meta object (F25 repaired) *)
+  im_lex : bool }.   (* InteractiveParser.copy rebinds parser_state.lexer to the copied thread (F26 repaired) *)
 
 Inductive op :=
 | OFeed (i ty id : nat)        (* p_i.feed_token(Token): in place, or copy-then-feed if p_i is immutable *)
-| OCopy (i : nat) (deep : bool) (* p_i.copy(deepcopy_values=deep); copy(p_i) is deep=true *)
+| OStep (i : nat)              (* one iteration of p_i.iter_parse(): next token of its own lexer thread, fed *)
+| OCopy (i : nat) (deep : bool) (* p_i.copy(deepcopy_values=deep); copy(p_i) is deep=default *)
 | OAsImm (i : nat)             (* p_i.as_immutable() *)
 | OAsMut (i : nat)             (* p_i.as_mutable()   *)
 | OAccepts (i : nat)           (* p_i.accepts()      *)
-| OResume (i : nat) (toks : list (nat * nat)).  (* p_i.resume_parse(), toks = what its lexer still yields *)
+| OResume (i : nat).           (* p_i.resume_parse(): the rest of parser_state.lexer, then $END *)
 
 Inductive obs :=
 | ObsFeed (j : nat) (kd : kind) (ss : list nat)   (* parser j was fed: outcome, its state stack *)
@@ -300,36 +375,45 @@ Fixpoint set_nth {A} (l : list A) (i : nat) (x : A) : list A :=
   | y :: r, S i' => y :: set_nth r i' x
   end.
 
-(* ParserState.copy(deepcopy_values) + InteractiveParser.copy: state stack copied, value
-   stack deep-copied or shared *)
-Definition copy_parser (deep : bool) (H : heap) (p : parser) : heap * parser :=
-  if deep then let (H1, vs1) := deepcopy H (p_vs p) in
-               (H1, {| p_imm := p_imm p; p_ss := p_ss p; p_vs := vs1 |})
-  else (H, p).
+(* InteractiveParser.copy(deepcopy_values):
+     lexer_thread = copy(self.lexer_thread)
+     parser_state = self.parser_state.copy(deepcopy_values)   # state stack copied, values deep or shared
+     parser_state.lexer = lexer_thread                        # (im_lex)
+     return type(self)(self.parser, parser_state, lexer_thread) *)
+Definition copy_parser (I : impl) (deep : bool) (H : heap) (p : parser) : heap * parser :=
+  let (H0, lt) := halloc H (CLex (lget H (p_lt p))) in
+  let (H1, vs1) := if deep then deepcopy (im_meta I) H0 (p_vs p) else (H0, p_vs p) in
+  (H1, {| p_imm := p_imm p; p_ss := p_ss p; p_vs := vs1; p_lt := lt;
+          p_sl := if im_lex I then lt else p_sl p |}).
 
 (* one trial of accepts(): new_cursor = self.copy(deepcopy_values=False) with callbacks = {};
-   new_cursor.feed_token(Token(t, '')) - which for an immutable cursor copies (deep) first *)
-Definition trial (dflt : bool) (k : nat) (T : table) (H : heap) (p : parser) (t : nat) : heap * kind :=
-  let (H0, p0) := copy_parser false H p in
-  let (H1, p1) := if p_imm p0 then copy_parser dflt H0 p0 else (H0, p0) in
-  let '(H2, _, _, kd) := hifeed k T (fun _ => cb_none) H1 (p_ss p1) (p_vs p1) t 0 in
+   new_cursor.feed_token(Token(t, '')) - which for an immutable cursor copies (default) first *)
+Definition trial (I : impl) (k : nat) (T : table) (H : heap) (p : parser) (t : nat) : heap * kind :=
+  let (H0, p0) := copy_parser I false H p in
+  let (H1, p1) := if p_imm p0 then copy_parser I (im_deep I) H0 p0 else (H0, p0) in
+  let '(H2, _, _, kd) := hifeed k T env_none H1 (p_ss p1) (p_vs p1) t 0 in
   (H2, kd).
 
-Fixpoint accepts_loop (dflt : bool) (k : nat) (T : table) (H : heap) (p : parser) (ts : list nat) : heap * list nat :=
+Fixpoint accepts_loop (I : impl) (k : nat) (T : table) (H : heap) (p : parser) (ts : list nat) : heap * list nat :=
   match ts with
   | [] => (H, [])
   | t :: r =>
-      let (H1, kd) := trial dflt k T H p t in
-      let (H2, acc) := accepts_loop dflt k T H1 p r in
+      let (H1, kd) := trial I k T H p t in
+      let (H2, acc) := accepts_loop I k T H1 p r in
       (H2, if kind_ok kd then t :: acc else acc)
   end.
 
 Definition choices (T : table) (p : parser) : list nat :=
   match p_ss p with s :: _ => terms T s | [] => [] end.
 
-(* dflt = the default of InteractiveParser.copy(deepcopy_values=...), through which copy(p),
-   as_immutable, as_mutable and ImmutableInteractiveParser.feed_token go (regenerated: Gen/InterHoles.v) *)
-Definition wstep (dflt : bool) (k : nat) (T : table) (cb : nat -> cbshape) (w : world) (o : op) : world * obs :=
+Definition with_state (p : parser) (ss : list nat) (vs : list value) : parser :=
+  {| p_imm := p_imm p; p_ss := ss; p_vs := vs; p_lt := p_lt p; p_sl := p_sl p |}.
+Definition with_imm (p : parser) (b : bool) : parser :=
+  {| p_imm := b; p_ss := p_ss p; p_vs := p_vs p; p_lt := p_lt p; p_sl := p_sl p |}.
+
+(* input = the tokens of the text given to parse_interactive(text) *)
+Definition wstep (I : impl) (k : nat) (T : table) (E : cbenv) (input : list (nat * nat))
+           (w : world) (o : op) : world * obs :=
   let H := w_heap w in
   let ps := w_ps w in
   match o with
@@ -338,77 +422,106 @@ Definition wstep (dflt : bool) (k : nat) (T : table) (cb : nat -> cbshape) (w : 
       | None => (w, ObsBad)
       | Some p =>
           if p_imm p then
-            let (H1, c) := copy_parser dflt H p in
-            let '(H2, ss2, vs2, kd) := hifeed k T cb H1 (p_ss c) (p_vs c) ty id in
-            ({| w_heap := H2; w_ps := ps ++ [{| p_imm := true; p_ss := ss2; p_vs := vs2 |}] |},
-             ObsFeed (length ps) kd ss2)
+            let (H1, c) := copy_parser I (im_deep I) H p in
+            let '(H2, ss2, vs2, kd) := hifeed k T E H1 (p_ss c) (p_vs c) ty id in
+            ({| w_heap := H2; w_ps := ps ++ [with_state c ss2 vs2] |}, ObsFeed (length ps) kd ss2)
           else
-            let '(H2, ss2, vs2, kd) := hifeed k T cb H (p_ss p) (p_vs p) ty id in
-            ({| w_heap := H2; w_ps := set_nth ps i {| p_imm := false; p_ss := ss2; p_vs := vs2 |} |},
-             ObsFeed i kd ss2)
+            let '(H2, ss2, vs2, kd) := hifeed k T E H (p_ss p) (p_vs p) ty id in
+            ({| w_heap := H2; w_ps := set_nth ps i (with_state p ss2 vs2) |}, ObsFeed i kd ss2)
+      end
+  | OStep i =>
+      match nth_error ps i with
+      | None => (w, ObsBad)
+      | Some p =>
+          if p_imm p then (w, ObsBad) else
+          let pos := lget H (p_lt p) in
+          match nth_error input pos with
+          | None => (w, ObsBad)
+          | Some (ty, id) =>
+              let H0 := lset H (p_lt p) (S pos) in
+              let '(H2, ss2, vs2, kd) := hifeed k T E H0 (p_ss p) (p_vs p) ty id in
+              ({| w_heap := H2; w_ps := set_nth ps i (with_state p ss2 vs2) |}, ObsFeed i kd ss2)
+          end
       end
   | OCopy i deep =>
       match nth_error ps i with
       | None => (w, ObsBad)
-      | Some p => let (H1, c) := copy_parser deep H p in
+      | Some p => let (H1, c) := copy_parser I deep H p in
                   ({| w_heap := H1; w_ps := ps ++ [c] |}, ObsNew (length ps))
       end
   | OAsImm i =>
       match nth_error ps i with
       | None => (w, ObsBad)
-      | Some p => let (H1, c) := copy_parser dflt H p in
-                  ({| w_heap := H1; w_ps := ps ++ [{| p_imm := true; p_ss := p_ss c; p_vs := p_vs c |}] |},
-                   ObsNew (length ps))
+      | Some p => let (H1, c) := copy_parser I (im_deep I) H p in
+                  ({| w_heap := H1; w_ps := ps ++ [with_imm c true] |}, ObsNew (length ps))
       end
   | OAsMut i =>
       match nth_error ps i with
       | None => (w, ObsBad)
-      | Some p => let (H1, c) := copy_parser dflt H p in
-                  ({| w_heap := H1; w_ps := ps ++ [{| p_imm := false; p_ss := p_ss c; p_vs := p_vs c |}] |},
-                   ObsNew (length ps))
+      | Some p => let (H1, c) := copy_parser I (im_deep I) H p in
+                  ({| w_heap := H1; w_ps := ps ++ [with_imm c false] |}, ObsNew (length ps))
       end
   | OAccepts i =>
       match nth_error ps i with
       | None => (w, ObsBad)
-      | Some p => let (H1, acc) := accepts_loop dflt k T H p (choices T p) in
+      | Some p => let (H1, acc) := accepts_loop I k T H p (choices T p) in
                   ({| w_heap := H1; w_ps := ps |}, ObsAccepts acc)
       end
-  | OResume i toks =>
+  | OResume i =>
       match nth_error ps i with
       | None => (w, ObsBad)
       | Some p =>
-          let '(H2, ss2, vs2, kd) := hparse_from k T cb H (p_ss p) (p_vs p) toks in
-          ({| w_heap := H2; w_ps := set_nth ps i {| p_imm := p_imm p; p_ss := ss2; p_vs := vs2 |} |},
-           ObsFeed i kd ss2)
+          let pos := lget H (p_sl p) in
+          let rest := skipn pos input in
+          let '(H2, ss2, vs2, kd) := hparse_from k T E H (p_ss p) (p_vs p) rest in
+          let H3 := lset H2 (p_sl p) (pos + cparse_cnt k T (p_ss p) rest) in
+          ({| w_heap := H3; w_ps := set_nth ps i (with_state p ss2 vs2) |}, ObsFeed i kd ss2)
       end
   end.
 
-Fixpoint wrun (dflt : bool) (k : nat) (T : table) (cb : nat -> cbshape) (w : world) (os : list op) : world * list obs :=
+Fixpoint wrun (I : impl) (k : nat) (T : table) (E : cbenv) (input : list (nat * nat))
+         (w : world) (os : list op) : world * list obs :=
   match os with
   | [] => (w, [])
-  | o :: r => let (w1, ob) := wstep dflt k T cb w o in
-              let (w2, obs) := wrun dflt k T cb w1 r in (w2, ob :: obs)
+  | o :: r => let (w1, ob) := wstep I k T E input w o in
+              let (w2, obs) := wrun I k T E input w1 r in (w2, ob :: obs)
   end.
 
+(* parse_interactive(text): one lexer thread at the start of the input, used by both references *)
 Definition world0 (T : table) : world :=
-  {| w_heap := []; w_ps := [{| p_imm := false; p_ss := [start_state T]; p_vs := [] |}] |}.
+  {| w_heap := [CLex 0];
+     w_ps := [{| p_imm := false; p_ss := [start_state T]; p_vs := []; p_lt := 0; p_sl := 0 |}] |}.
 
 (* ------------------------------------------------------------------ the same on immutable trees *)
-Record pparser := { pp_imm : bool; pp_ss : list nat; pp_ts : list ptree }.
+Record pparser := { pp_imm : bool; pp_ss : list nat; pp_ts : list ptree; pp_pos : nat }.
 
 Definition paccepts (k : nat) (T : table) (pp : pparser) : list nat :=
   filter (fun t => kind_ok (snd (cfeed k T (pp_ss pp) t (t =? END))))
          (match pp_ss pp with s :: _ => terms T s | [] => [] end).
 
-Definition pstep (k : nat) (T : table) (cb : nat -> cbshape) (ps : list pparser) (o : op) : list pparser * obs :=
+Definition pstep (k : nat) (T : table) (E : cbenv) (input : list (nat * nat))
+           (ps : list pparser) (o : op) : list pparser * obs :=
   match o with
   | OFeed i ty id =>
       match nth_error ps i with
       | None => (ps, ObsBad)
       | Some p =>
-          let '(ss2, ts2, kd) := pifeed k T cb (pp_ss p) (pp_ts p) ty id in
-          if pp_imm p then (ps ++ [{| pp_imm := true; pp_ss := ss2; pp_ts := ts2 |}], ObsFeed (length ps) kd ss2)
-          else (set_nth ps i {| pp_imm := false; pp_ss := ss2; pp_ts := ts2 |}, ObsFeed i kd ss2)
+          let '(ss2, ts2, kd) := pifeed k T E (pp_ss p) (pp_ts p) ty id in
+          if pp_imm p then (ps ++ [{| pp_imm := true; pp_ss := ss2; pp_ts := ts2; pp_pos := pp_pos p |}],
+                            ObsFeed (length ps) kd ss2)
+          else (set_nth ps i {| pp_imm := false; pp_ss := ss2; pp_ts := ts2; pp_pos := pp_pos p |}, ObsFeed i kd ss2)
+      end
+  | OStep i =>
+      match nth_error ps i with
+      | None => (ps, ObsBad)
+      | Some p =>
+          if pp_imm p then (ps, ObsBad) else
+          match nth_error input (pp_pos p) with
+          | None => (ps, ObsBad)
+          | Some (ty, id) =>
+              let '(ss2, ts2, kd) := pifeed k T E (pp_ss p) (pp_ts p) ty id in
+              (set_nth ps i {| pp_imm := false; pp_ss := ss2; pp_ts := ts2; pp_pos := S (pp_pos p) |}, ObsFeed i kd ss2)
+          end
       end
   | OCopy i _ =>
       match nth_error ps i with
@@ -418,43 +531,48 @@ Definition pstep (k : nat) (T : table) (cb : nat -> cbshape) (ps : list pparser)
   | OAsImm i =>
       match nth_error ps i with
       | None => (ps, ObsBad)
-      | Some p => (ps ++ [{| pp_imm := true; pp_ss := pp_ss p; pp_ts := pp_ts p |}], ObsNew (length ps))
+      | Some p => (ps ++ [{| pp_imm := true; pp_ss := pp_ss p; pp_ts := pp_ts p; pp_pos := pp_pos p |}], ObsNew (length ps))
       end
   | OAsMut i =>
       match nth_error ps i with
       | None => (ps, ObsBad)
-      | Some p => (ps ++ [{| pp_imm := false; pp_ss := pp_ss p; pp_ts := pp_ts p |}], ObsNew (length ps))
+      | Some p => (ps ++ [{| pp_imm := false; pp_ss := pp_ss p; pp_ts := pp_ts p; pp_pos := pp_pos p |}], ObsNew (length ps))
       end
   | OAccepts i =>
       match nth_error ps i with
       | None => (ps, ObsBad)
       | Some p => (ps, ObsAccepts (paccepts k T p))
       end
-  | OResume i toks =>
+  | OResume i =>
       match nth_error ps i with
       | None => (ps, ObsBad)
       | Some p =>
-          let '(ss2, ts2, kd) := pparse_from k T cb (pp_ss p) (pp_ts p) toks in
-          (set_nth ps i {| pp_imm := pp_imm p; pp_ss := ss2; pp_ts := ts2 |}, ObsFeed i kd ss2)
+          let rest := skipn (pp_pos p) input in
+          let '(ss2, ts2, kd) := pparse_from k T E (pp_ss p) (pp_ts p) rest in
+          (set_nth ps i {| pp_imm := pp_imm p; pp_ss := ss2; pp_ts := ts2;
+                           pp_pos := pp_pos p + cparse_cnt k T (pp_ss p) rest |}, ObsFeed i kd ss2)
       end
   end.
 
-Fixpoint prun (k : nat) (T : table) (cb : nat -> cbshape) (ps : list pparser) (os : list op) : list pparser * list obs :=
+Fixpoint prun (k : nat) (T : table) (E : cbenv) (input : list (nat * nat))
+         (ps : list pparser) (os : list op) : list pparser * list obs :=
   match os with
   | [] => (ps, [])
-  | o :: r => let (ps1, ob) := pstep k T cb ps o in
-              let (ps2, obs) := prun k T cb ps1 r in (ps2, ob :: obs)
+  | o :: r => let (ps1, ob) := pstep k T E input ps o in
+              let (ps2, obs) := prun k T E input ps1 r in (ps2, ob :: obs)
   end.
 
 Definition pworld0 (T : table) : list pparser :=
-  [{| pp_imm := false; pp_ss := [start_state T]; pp_ts := [] |}].
+  [{| pp_imm := false; pp_ss := [start_state T]; pp_ts := []; pp_pos := 0 |}].
 
 (* ------------------------------------------------------------------ own history of a fork *)
 (* what a parser has been through, as a function of the operation list alone *)
-Inductive event := EFeed (ty id : nat) | EResume (toks : list (nat * nat)).
+Inductive event := EFeed (ty id : nat) | EStep | EResume.
 
 Definition lineage := (bool * list event)%type.   (* immutable?, events *)
 
+(* a step on an immutable parser or at the end of the input does nothing (ObsBad); whether the input
+   is exhausted depends on the history, so EStep is recorded and replayed as a no-op in that case *)
 Definition lstep (hs : list lineage) (o : op) : list lineage :=
   match o with
   | OFeed i ty id =>
@@ -463,28 +581,44 @@ Definition lstep (hs : list lineage) (o : op) : list lineage :=
       | Some (imm, ev) => if imm then hs ++ [(true, ev ++ [EFeed ty id])]
                           else set_nth hs i (false, ev ++ [EFeed ty id])
       end
+  | OStep i =>
+      match nth_error hs i with
+      | None => hs
+      | Some (imm, ev) => if imm then hs else set_nth hs i (false, ev ++ [EStep])
+      end
   | OCopy i _ => match nth_error hs i with None => hs | Some h => hs ++ [h] end
   | OAsImm i => match nth_error hs i with None => hs | Some (_, ev) => hs ++ [(true, ev)] end
   | OAsMut i => match nth_error hs i with None => hs | Some (_, ev) => hs ++ [(false, ev)] end
   | OAccepts _ => hs
-  | OResume i toks =>
+  | OResume i =>
       match nth_error hs i with
       | None => hs
-      | Some (imm, ev) => set_nth hs i (imm, ev ++ [EResume toks])
+      | Some (imm, ev) => set_nth hs i (imm, ev ++ [EResume])
       end
   end.
 
 Definition lineages (os : list op) : list lineage := fold_left lstep os [(false, [])].
 
-(* replaying a history on a fresh parser (outcomes ignored: the state is what matters) *)
-Definition preplay1 k T cb (st : list nat * list ptree) (e : event) : list nat * list ptree :=
+(* replaying a history on a fresh parser (outcomes ignored: the state is what matters):
+   state stack, value stack, position of the own lexer *)
+Definition pstate := (list nat * list ptree * nat)%type.
+
+Definition preplay1 k T E (input : list (nat * nat)) (st : pstate) (e : event) : pstate :=
+  let '(ss0, ts0, pos) := st in
   match e with
-  | EFeed ty id => let '(ss, ts, _) := pifeed k T cb (fst st) (snd st) ty id in (ss, ts)
-  | EResume toks => let '(ss, ts, _) := pparse_from k T cb (fst st) (snd st) toks in (ss, ts)
+  | EFeed ty id => let '(ss, ts, _) := pifeed k T E ss0 ts0 ty id in (ss, ts, pos)
+  | EStep =>
+      match nth_error input pos with
+      | None => st
+      | Some (ty, id) => let '(ss, ts, _) := pifeed k T E ss0 ts0 ty id in (ss, ts, S pos)
+      end
+  | EResume =>
+      let rest := skipn pos input in
+      let '(ss, ts, _) := pparse_from k T E ss0 ts0 rest in (ss, ts, pos + cparse_cnt k T ss0 rest)
   end.
 
-Definition preplay k T cb (ev : list event) : list nat * list ptree :=
-  fold_left (preplay1 k T cb) ev ([start_state T], []).
+Definition preplay k T E input (ev : list event) : pstate :=
+  fold_left (preplay1 k T E input) ev ([start_state T], [], 0).
 
 (* ------------------------------------------------------------------ tables given as data *)
 Fixpoint assoc {A} (k : nat) (l : list (nat * A)) : option A :=
@@ -519,6 +653,12 @@ Definition mk_cb (rules : list (nat * nat)) (cbs : list cbdata) (r : nat) : cbsh
                       | Some (inc, app) => Some (dirs_of 0 (snd (nth r rules (0, 0))) inc, app)
                       end |}
   end.
+
+(* token positions given as data: id -> ((start_pos, line, column), (end_pos, end_line, end_column)) *)
+Definition mk_env (rules : list (nat * nat)) (cbs : list cbdata) (pp : bool)
+           (tps : list (nat * (trip * trip))) : cbenv :=
+  {| ce_cb := mk_cb rules cbs; ce_pp := pp;
+     ce_tp := fun id => match assoc id tps with Some x => x | None => ((0, 0, 0), (0, 0, 0))%Z end |}.
 
 Fixpoint cbs_wf (rules : list (nat * nat)) (cbs : list cbdata) : bool :=
   match rules, cbs with
